@@ -22,7 +22,8 @@ use crate::report::{Acc, Check, Tier};
 use crate::util;
 use crate::world::{self, Verdict};
 
-pub const DEVIATIONS: [&str; 23] = [
+pub const DEVIATIONS: [&str; 24] = [
+    "inner-step-named-into-the-parent-directory",
     "sublayout-refiled-under-key-id-in-upper-case",
     "inner-links-in-directory-matched-as-a-pattern",
     "inner-threshold-2-links-disagree",
@@ -123,8 +124,10 @@ fn build(dir: &Path, tree: &Tree, devs: &BTreeSet<&str>) -> in_toto::models::Met
     // ---- inner layout (delegated by step s to functionary F)
     let n = tree.n_inner;
     let mut inner_steps: Vec<Step> = vec![];
+    let up = has(devs, "inner-step-named-into-the-parent-directory");
     for i in 1..=n {
-        let mut st = world::step(&format!("in{i}"), 1, &[k.b]);
+        // `../in1`: read as a path, the inner step's link pattern points into the parent directory
+        let mut st = world::step(&if i == 1 && up { "../in1".to_string() } else { format!("in{i}") }, 1, &[k.b]);
         if i == 1 && (has(devs, "inner-threshold-2-one-link") || has(devs, "inner-threshold-2-links-disagree")) {
             st = world::step("in1", 2, &[k.b, k.h]);
         }
@@ -209,6 +212,14 @@ fn build(dir: &Path, tree: &Tree, devs: &BTreeSet<&str>) -> in_toto::models::Met
         } else {
             k.b
         };
+        if i == 1 && up {
+            // the only link for it lies in the parent directory, under the plain file name; the
+            // dedicated sub-directory holds nothing for this step
+            let mut l = inner_link_t(tree, 1);
+            l.name = "../in1".into();
+            world::write(dir, &world::link_file("in1", k.b), &world::block_text(&world::sign_link(l, &[k.b])));
+            continue;
+        }
         let mb = world::sign_link(inner_link_t(tree, i), &[link_signer]);
         if i == 1 && has(devs, "inner-threshold-2-links-disagree") {
             // the second functionary of in1 signs a link with another product digest
@@ -302,7 +313,7 @@ fn applicable(tree: &Tree, d: &str) -> bool {
         "inner-links-in-directory-matched-as-a-pattern" => tree.step.contains(['?', '*', '[']),
         "level3-link-missing" | "level3-layout-signed-by-other-key" => tree.levels == 3,
         // with three levels in1's evidence is a sub-layout, link-level deviations on in1 do not apply
-        "inner-link-by-unauthorized-key" | "inner-link-by-key-outside-inner-table" | "inner-threshold-2-one-link" | "inner-threshold-2-links-disagree" => tree.levels == 2,
+        "inner-link-by-unauthorized-key" | "inner-link-by-key-outside-inner-table" | "inner-threshold-2-one-link" | "inner-threshold-2-links-disagree" | "inner-step-named-into-the-parent-directory" => tree.levels == 2,
         "inner-link-missing:last" => tree.n_inner > 1,
         // the failing rule is DISALLOW * on the last inner step's products, which that shape leaves empty
         "inner-rule-fails" => tree.shape != "s-empty-ends",
@@ -317,7 +328,7 @@ fn conflict(a: &str, b: &str) -> bool {
         match d {
             "inner-signed-by-G-filed-under-F" | "inner-signed-by-unauthorized-G-under-G" => 1,
             "sublayout-refiled-under-key-id-in-upper-case" | "subdir-named-after-other-key" | "subdir-named-after-step-only" | "inner-links-in-parent-dir" | "inner-links-in-directory-of-name-before-last-dot" | "inner-links-in-directory-matched-as-a-pattern" => 2,
-            "inner-link-by-unauthorized-key" | "inner-link-by-key-outside-inner-table" | "inner-link-missing:first" | "inner-threshold-2-one-link" | "inner-threshold-2-links-disagree" => 3,
+            "inner-step-named-into-the-parent-directory" | "inner-link-by-unauthorized-key" | "inner-link-by-key-outside-inner-table" | "inner-link-missing:first" | "inner-threshold-2-one-link" | "inner-threshold-2-links-disagree" => 3,
             _ => 0,
         }
     };
